@@ -19,5 +19,17 @@ CLAIMS = {
         "note": "trusted: Lean kernel (+propext, Classical.choice, Quot.sound), translator for Gen/Guards, correspondence harness",
         "technique": "Lean 4 proof: invariant by induction over histories + decide over regenerated guard table; differential correspondence",
     },
+    "C12": {
+        "text": "Proof (Lean 4), partial. The property is false of the code today (findings F03: LIKE wildcards and ASCII case; F07: rename into own subtree accepted; F06: rename onto existing does not move) and the witnesses are theorems evaluated by the kernel on the model and replayed on the implementation. Proved for all names: SQLite's `name LIKE '<dir>/%'` on a wildcard-free directory name is exactly the case-folded prefix test (like_is_folded_prefix), every true descendant is selected (every_descendant_selected), prefix-related siblings are not, and outside the trigger region (no wildcard in the stored directory name, no case-variant sibling) GetHeaderChildren — the set RemoveAll/Rename delete or move — is exactly the live rows textually beneath the directory (children_exact_partial). Not yet proved in Lean: that Delete/Move then change exactly those rows and nothing else (decided by the oracle on the real code: tree before/after every RemoveAll/Rename), and Move's new-name arithmetic.",
+        "design_ref": "DESIGN.md §8 C12",
+        "note": "trusted: Lean kernel (+propext, Classical.choice, Quot.sound), correspondence harness (validates the LIKE model against the real SQLite on names with _ % . space non-ASCII and prefix-related siblings)",
+        "technique": "Lean 4 proof of the LIKE pattern semantics + kernel-evaluated counter-witnesses; differential correspondence; tree-diff oracle",
+    },
+    "C13": {
+        "text": "Proof (Lean 4), partial. False of the code today (F04 parent may be a file, F05 MkdirAll creates only the leaf, F07, F10 listing by replace(), F11 symlinks, F15 root removable); witnesses are kernel-evaluated theorems. Proved for all tables, spellings and limits: a count-limited listing returns at most n entries (limited_listing_le, readdir_count_le through the handle), and a listing never contains the directory itself (listing_excludes_self). The tree invariant itself (reachable = live, parents are directories, listing = children exactly once, listing agrees with stat/open) is decided by the oracle on the real code after every call, classified through the model's triggers (listingDeviates is evaluated on every state).",
+        "design_ref": "DESIGN.md §8 C13",
+        "note": "trusted: Lean kernel (+propext, Classical.choice, Quot.sound), correspondence harness (validates the direct-children query model — replace(), depth, limit, link pass — against the real SQLite)",
+        "technique": "Lean 4 proof of the limit arithmetic and self-exclusion + kernel-evaluated counter-witnesses; differential correspondence; tree-walk oracle",
+    },
 }
 NOT_APPLICABLE = {}
